@@ -1,4 +1,5 @@
 import BqVerif.Proofs.Partition
+import BqVerif.Proofs.QuickSpec
 /-!
 # C08 — partitioning regroups operations without changing the program
 
@@ -97,6 +98,51 @@ theorem C08_validator_sound_plain_input (b : Blocks) (bg : List Nat) (strict : B
   rw [flat_noblock c.ops hc] at hperm hproj
   exact ⟨hperm, hproj⟩
 
+/-! ## QuickSpec — the emission machine abstracting `QuickPartitioner.run`
+
+`Model/Partition.lean`: the input is the operation list `l` in iteration order; moves are
+`emit tags blk` (a bin is placed: legal iff the group is *closed* — every not yet emitted
+operation before a member that shares a qudit with it is a member too), `lift j m` (a rear
+block is popped for merging) and `fuse` (it is merged with the bin placed next).  The
+harness observes the moves of every real run and the driver checks each is legal. -/
+
+/-- **Safety of QuickSpec** (full statement of the design: "every terminal output of the
+machine passes the validator").  Proved here, for every run that consumes the whole input:
+clause (3) every qudit's timeline is unchanged and the output is a permutation of the input;
+clauses (1)+(4) a group is either one bare barrier-like operation or a block without any;
+clause (2) every block spans at most `max k (widest member)` qudits.
+`_partial`, because two steps to the literal statement are not proved but checked per run:
+(i) packaging the groups as `CircuitGate`s placed on a `Circ` by `append_circuit` (clause (5)
+`invB` and the block table) — the real output goes through `validPartition` instead;
+(ii) that QuickPartitioner's own emission guard (`dividing_line[q] == start` for all qudits
+of the bin) implies `closedIn` — each recorded move is checked by the driver.
+Deadlock freedom (`C08_quick_progress`) is not claimed: see finding F4. -/
+theorem C08_quick_safety_partial (bg : List Nat) (k : Nat) (l : List Op) (ms : List QMove)
+    (s : QState) (hrun : qrun bg k (QState.init l) ms 0 = .ok s) (hterm : s.rem = []) :
+    (∀ q, proj q (outOps s) = proj q l) ∧ (outOps s).Perm l ∧
+    (∀ g ∈ s.out, if g.blk then (∀ x ∈ g.ops, barrierLike bg x.op = false) ∧
+        (dedupNat (g.ops.flatMap (·.op.loc))).length ≤ max k (widest (g.ops.map (·.op)))
+      else ∃ x, g.ops = [x] ∧ barrierLike bg x.op = true) := by
+  have hinv := qinv_run ms _ s 0 (qinv_init bg k l) hrun
+  refine ⟨?_, ?_, ?_⟩
+  · intro q
+    have := hinv.tl q
+    simpa [remOps, hterm, proj] using this
+  · have := hinv.perm
+    simpa [remOps, hterm] using this
+  · intro g hg
+    have := hinv.ok g hg
+    unfold GroupOk groupWidthOk at this
+    simpa using this
+
+/-- … hence the same denotation, in every semantics. -/
+theorem C08_quick_den (b : Blocks) (bg : List Nat) (k : Nat) (l : List Op) (ms : List QMove)
+    (s : QState) (hrun : qrun bg k (QState.init l) ms 0 = .ok s) (hterm : s.rem = [])
+    (hl : ∀ o ∈ l, o.loc ≠ []) (M : Type) [Monoid M] (S : Semantics M b) :
+    den S (outOps s) = den S l := by
+  obtain ⟨htl, hperm, _⟩ := C08_quick_safety_partial bg k l ms s hrun hterm
+  exact trace_equiv S _ _ (fun o ho => hl o (hperm.mem_iff.mp ho)) hl htl
+
 /-! ## non-vacuity -/
 namespace Example
 /- gids: 1 = H, 2 = CX, 3 = RZ (one parameter), 9 = barrier.  A 4-qubit, 9-operation
@@ -125,6 +171,10 @@ def pBad : Circ := ⟨[2, 2, 2, 2], [
   [⟨1002, [], [1, 2], q2⟩, ⟨1003, [], [0], [2]⟩],
   [⟨9, [], [1, 2], q2⟩],
   [⟨1004, [7], [2, 3], q2⟩]]⟩
+/-- a run of QuickSpec on the example: six bins placed, then the H block is popped and
+merged into the last one (block size 3) -/
+def moves : List QMove := [.emit [0, 2] true, .emit [1, 3] true, .emit [4] false,
+  .emit [5] true, .emit [6] true, .lift 4 0, .emit [7, 8] true, .fuse]
 end Example
 
 example : validPartition Example.blocks [9] true Example.c Example.p 2 = none := by decide +kernel
@@ -133,6 +183,19 @@ example : validPartition Example.blocks [9] true Example.c Example.pBad 2 = some
 example : validPartition Example.blocks [] true Example.c Example.p 2 = some "unblocked-op" := by
   decide +kernel
 example : (Example.c.ops.length = 9 ∧ Example.c.numQudits = 4) := by decide
+
+example : (match qrun [9] 3 (QState.init Example.c.ops) Example.moves 0 with
+    | .ok s => s.rem.isEmpty && s.out.length == 5
+    | .error _ => false) = true := by decide +kernel
+/-- placing the last CX before the operations it depends on is an illegal move -/
+example : (match qrun [9] 3 (QState.init Example.c.ops) [.emit [8] true] 0 with
+    | .ok _ => false
+    | .error i => i == 0) = true := by decide +kernel
+/-- a barrier cannot be put into a block -/
+example : (match qrun [9] 3 (QState.init Example.c.ops)
+      [.emit [0, 2] true, .emit [1, 3] true, .emit [4, 5] true] 0 with
+    | .ok _ => false
+    | .error i => i == 2) = true := by decide +kernel
 
 /-- the hypothesis of clause (a) is satisfiable for every block table … -/
 def trivialSemantics (b : Blocks) : Semantics (Multiplicative (Multiset Op)) b :=
